@@ -332,6 +332,12 @@ func (c *Case) lines() []string {
 			continue // a read-only look at the help in the middle of the definition: nothing for the model to do
 		}
 		out = append(out, op.line())
+		if op.Op == "argfn" {
+			// further functions handed to the same ArgCompletionsFns call: for the model one registration each
+			for _, n := range op.InitIS {
+				out = append(out, fmt.Sprintf("argfn %d %d", op.H, n))
+			}
+		}
 	}
 	if c.Comp {
 		z := 0
